@@ -74,6 +74,14 @@ Definition uploader_consumes (tend : Z) (start : Z * Z) : bool :=
   uploader_collects tend start && before_start tend start.
 Definition uploader_week (tend : Z) : bytes := fmt_date (tend / 86400).
 
+(* ONE run over several count files (program, recorded end, count): the entries
+   (week, program, count) of the reports it writes, and the files it leaves *)
+Definition run_entries (files : list (nat * Z * Z)) (start : Z * Z) : list (bytes * nat * Z) :=
+  map (fun f => let '(p, e, n) := f in (uploader_week e, p, n))
+      (filter (fun f => let '(p, e, n) := f in uploader_consumes e start) files).
+Definition run_leaves (files : list (nat * Z * Z)) (start : Z * Z) : list (nat * Z * Z) :=
+  filter (fun f => let '(p, e, n) := f in negb (uploader_consumes e start)) files.
+
 (* the whole path: what the uploader reads from the metadata the counter wrote *)
 Definition uploader_reads (meta_begin meta_end : bytes) : option (Z * Z) :=
   match parse_rfc3339z meta_begin, parse_rfc3339z meta_end with
